@@ -698,4 +698,41 @@ example :
     (step s (.unlock EMPTY)).2 = .ok := by
   decide
 
+/-! ## 6. the crypto keys while unlocked (tree with b81a3ff: Unlock restores the script key too) -/
+
+/-- a successful Unlock of a locked manager leaves the master key, the private crypto key and (fo1) the script
+crypto key populated: secret scripts are sealed under a real key, not the all-zero one.  Together with
+`C05_wiped_by_lock` (all three are zero after lock) this is the buffer map of the keys. -/
+theorem C05_unlock_restores_keys (cfg : Cfg) (hfo1 : cfg.fo1 = true) (d : Disk) (m : Mem) (p : Nat)
+    (hl : m.locked = true) (h : (unlock cfg d m p).2 = none) :
+    (unlock cfg d m p).1.locked = false ∧ (unlock cfg d m p).1.masterPriv = .nonzero ∧
+    (unlock cfg d m p).1.cryptoPriv = .nonzero ∧ (unlock cfg d m p).1.cryptoScript = .nonzero := by
+  unfold unlock at h ⊢
+  split at h
+  · cases h
+  · rename_i hw
+    rw [if_neg hw]
+    split at h
+    · rename_i hnl; simp [hl] at hnl
+    · rename_i hnl
+      rw [if_neg hnl]
+      split at h
+      · cases h
+      · rename_i hp
+        rw [if_neg hp]
+        dsimp only at h ⊢
+        have key := scal_unlockScopes cfg d (List.range nScopes) (unlockStart cfg m)
+        cases hr : unlockScopes cfg d (List.range nScopes) (unlockStart cfg m) with
+        | mk m2 e =>
+          rw [hr] at h key
+          simp only at key
+          have h3 : m2.masterPriv = .nonzero := congrArg (·.2.2.1) key
+          have h4 : m2.cryptoPriv = .nonzero := congrArg (·.2.2.2.1) key
+          have h5 : m2.cryptoScript = .nonzero := by
+            have h5' : m2.cryptoScript = (unlockStart cfg m).cryptoScript := congrArg (·.2.2.2.2.1) key
+            rw [h5']; simp [unlockStart, hfo1]
+          cases e with
+          | none => exact ⟨rfl, h3, h4, h5⟩
+          | some e => cases e <;> simp at h
+
 end AddrLock
